@@ -911,6 +911,8 @@ class Exec:
 
     def at_raise(self, e: PyRaise) -> None:
         env = self.spec_env()
+        for k, a in enumerate(e.pyargs):
+            env[f"exc{k}"] = a
         self.tags.append(f"raise[{e.cls}]")
         matched = None
         for cls in self.c.raises:
@@ -941,6 +943,16 @@ class Exec:
         if m is None:
             raise Unsupported(f"statement {type(st).__name__} at line {self.cur_line} of {self.fi.qualname}")
         m(st)
+        if "everywhere" in self.c.clauses and self.fi.qualname == self.c.target and not isinstance(st, (ast.Return, ast.Raise)):
+            from . import lib_fs
+
+            lib_fs.crash_point(self, f"after-{type(st).__name__}@{self._stmt_ordinal(st)}")
+
+    def _stmt_ordinal(self, st: ast.stmt) -> int:
+        for k, n in enumerate(ast.walk(self.fi.node)):
+            if n is st:
+                return k
+        return -1
 
     def st_Expr(self, st: ast.Expr) -> None:
         if isinstance(st.value, ast.Constant):
@@ -1145,10 +1157,11 @@ class Exec:
         bt = base.ty
         if bt.kind == "raw" and isinstance(base.aux, dict) and name in base.aux:
             return base.aux[name]
-        if bt.kind == "obj":
+        if bt.kind in ("obj", "str"):
             r = lib.attr_hook(self, base, name)
             if r is not None:
                 return r
+        if bt.kind == "obj":
             fty = self.field_ty(bt.cls, name)
             if fty is None:
                 # property?
